@@ -312,8 +312,10 @@ class Check:
         ev = {"property_id": self.pid, "tier": self.tier, "seed": self.seed, "level": self.level,
               "coverage": cov, "assumptions": self.assumptions, "wall_s": round(wall, 2),
               "violations": len(self.violations)}
-        os.makedirs(EVIDENCE, exist_ok=True)
-        with open(os.path.join(EVIDENCE, self.pid + ".json"), "w") as f:
+        # extension checks (X..) serve no listed property: their evidence stays with their run directory
+        evdir = EVIDENCE if self.pid.startswith("C") else os.path.join(RUN, self.pid)
+        os.makedirs(evdir, exist_ok=True)
+        with open(os.path.join(evdir, self.pid + ".json"), "w") as f:
             json.dump(ev, f, indent=1, default=str)
         for key, desc, path in self.violations[:20]:
             print("VIOLATION property=%s replay=%s" % (self.pid, path), flush=True)
